@@ -179,6 +179,7 @@ Definition thread_ok (cfg : config) (s : state) (tr : list event) (w : nat) (p :
   | WSigSet f n => exec_ok cfg (PhCompleted w) s tr f n None true None
   | CStartSet f _ _ => f_joinable (get_fut s f) = false
   | CJoinReset f _ => f_sig (get_fut s f) = true
+  | WBcast _ _ => c_sigfix cfg = false       (* the late broadcast exists only in the code as it was *)
   | _ => True
   end.
 
@@ -197,15 +198,20 @@ Definition fut_ok (cfg : config) (tr : list event) (f : nat) (x : fut) : Prop :=
   (forall c m a wk, In (EvStart c f m a wk) tr -> (1 <= m <= n)%nat).
 
 Definition op_fut (op : cop) : option nat :=
-  match op with CStart f _ _ | CAbort f | CJoin f | CGet f | CCheck f => Some f | CPause => None end.
+  match op with
+  | CStart f _ _ | CAbort f | CJoin f | CGet f | CCheck f | CDestroy f => Some f
+  | CPause | CResume _ _ _ => None
+  end.
 
 Definition mentions (sc : list (nat * cop)) (f : nat) : Prop :=
   exists i op, In (i, op) sc /\ op_fut op = Some f.
 
-(* every future is used by one client thread only, and exists; the queue has room for one job *)
+(* every future is used by one client thread only, and exists; the queue has room for one job;
+   the started functions do not start futures themselves *)
 Definition wf_cfg (cfg : config) (own : nat -> nat) : Prop :=
   0 < c_cap cfg /\
-  forall c f, mentions (nth c (c_scripts cfg) []) f -> (f < c_nfut cfg)%nat /\ own f = c.
+  (forall c f, mentions (nth c (c_scripts cfg) []) f -> (f < c_nfut cfg)%nat /\ own f = c) /\
+  c_nested cfg = false.
 
 Definition own_ok (cfg : config) (own : nat -> nat) (s : state) : Prop :=
   forall x f, client_fut (pc_of s x) = Some f \/ mentions (script_of s x) f -> (f < c_nfut cfg)%nat /\ own f = x.
